@@ -249,7 +249,12 @@ def approx(a, b, tol=1e-6):
     return abs(a - b) <= tol
 
 
+def isint(x):
+    return float(x).is_integer()
+
+
 NATIVE_HELPERS = {
+    "isint": isint,
     "implies": implies,
     "iff": iff,
     "forall": forall,
